@@ -16,6 +16,7 @@ import json
 from urllib.parse import quote
 
 from props.common import enc_str, enc_list, Reader
+from props import wsgi_cov
 
 ID = 'C03'
 COQ_MODEL = 'model.Wsgi'
@@ -472,6 +473,9 @@ def validated_call(app, environ, rec):
 
 
 def run_impl(case):
+    if wsgi_cov.ENABLED:
+        import os
+        wsgi_cov.start(os.environ.get('VERIF_REPO', '/repo'))
     if case['kind'] == 'status':
         from ombott.response import HTTPResponse
         r = HTTPResponse()
